@@ -2801,7 +2801,6 @@ def c16_traces(ctx, res):
 def oracle_c16(ctx):
     res = Result('c16.history')
     g = ctx.gen
-    c16_traces(ctx, res)
     # (1) per-call results in a long history == results of the same calls made first thing in a
     #     fresh interpreter state (computed here by re-running each call in isolation afterwards)
     ops = lanes.api_ops(ctx, 3000 if ctx.thorough else 400)
@@ -2828,6 +2827,9 @@ def oracle_c16(ctx):
         encode.DEPRECATED_RABBITMQ_SUPPORT = old
     c16_fresh_processes(ctx, res, g.r.randrange(1 << 30), 1200 if ctx.thorough else 300)
     c16_first_use(ctx, res)
+    # (after the history: the probes below encode the recurring values over and over, which would use up any
+    # once-per-process behaviour the history comparison is there to see)
+    c16_traces(ctx, res)
     # (2) objects returned by separate calls never share mutable state
     made = []
     for key, cls in commands.INDEX_MAPPING.items():
@@ -2937,6 +2939,7 @@ ctx = Ctx(); ctx.thorough = False; ctx.generated = dict(json.load(open(spec['gen
 gen.MINED_STRINGS[:] = spec.get('mined', [])
 ctx.gen = gen.Gen(spec['seed'])
 ops = lanes.api_ops(ctx, spec['n'])
+ops += [o[:3] for o in lanes.recurring_ops()]
 out = {}
 for i in spec['order']:
     line, thunk, desc = ops[i]
@@ -3062,18 +3065,29 @@ def c16_fresh_processes(ctx, res, seed, n, procs=3):
             outs.append(o if isinstance(o, str) else 'ok')
             if line.startswith('api.toggle'):
                 flag = {'d': True, '1': True, '0': False}[line.split(' ')[1]]
+        for line, thunk, desc, fl in lanes.recurring_ops():
+            ops.append((line, thunk, desc))
+            flags.append(fl)
+            encode.DEPRECATED_RABBITMQ_SUPPORT = fl
+            o = thunk()
+            outs.append(o if isinstance(o, str) else 'ok')
     finally:
         encode.DEPRECATED_RABBITMQ_SUPPORT = old
     rnd = random.Random(seed)
     children = []
-    for k in range(procs):
+    orders = []
+    for k in range(procs + 1):
         order = list(range(len(ops)))
         rnd.shuffle(order)
+        if k == procs:
+            order = list(reversed(orders[0]))      # one child runs exactly the reverse of another
+        orders.append(order)
         env = dict(os.environ, VERIF_TOOLS=os.path.dirname(os.path.abspath(__file__)), PAMQP_REPO=real.REPO, PYTHONDONTWRITEBYTECODE='1')
         p = subprocess.Popen([sys.executable, '-B', '-c', C16_CHILD], stdin=subprocess.PIPE, stdout=subprocess.PIPE, stderr=subprocess.PIPE, env=env)
         p.stdin.write(json.dumps({'seed': seed, 'n': n, 'order': order, 'flags': flags, 'generated': gen_path, 'mined': list(G.MINED_STRINGS)}).encode())
         p.stdin.close()
         children.append(p)
+    per_child = []
     for k, p in enumerate(children):
         o = p.stdout.read()
         e = p.stderr.read()
@@ -3082,6 +3096,7 @@ def c16_fresh_processes(ctx, res, seed, n, procs=3):
             res.notes.append('fresh-interpreter child %d failed: %s' % (k, e.decode()[-300:]))
             continue
         r = json.loads(o)
+        per_child.append(r['out'])
         if r['lines'] != [x[0][:200] for x in ops]:
             res.notes.append('fresh-interpreter child %d generated a different operation list (generator not reproducible)' % k)
             continue
@@ -3092,6 +3107,15 @@ def c16_fresh_processes(ctx, res, seed, n, procs=3):
                 res.violation('call %d gives a different result in a fresh interpreter (switch=%s) than inside the history' % (i, flags[i]),
                               {'fn': 'none', 'args': '()', 'line': ops[i][0][:500], 'switch': flags[i]}, got[:300], outs[i][:300])
                 return
+    # ... and the fresh interpreters among themselves (this process may be uniformly affected by what it ran before)
+    for a in range(len(per_child)):
+        for b in range(a + 1, len(per_child)):
+            for i_s, got in per_child[a].items():
+                if i_s in per_child[b] and per_child[b][i_s] != got:
+                    i = int(i_s)
+                    res.violation('call %d (switch=%s) gives different results in two fresh interpreters that ran the same calls in different orders' % (i, flags[i]),
+                                  {'fn': 'none', 'args': '()', 'line': ops[i][0][:500], 'switch': flags[i]}, got[:300], per_child[b][i_s][:300])
+                    return
 
 
 def replay(rep):
